@@ -303,12 +303,22 @@ fn real_signals(rep: &mut Reporter) -> serde_json::Value {
     json!({"cases": cases.len(), "two_signal_cases_with_forced_exit": forced, "signal_arrived_before_the_handler_was_installed": before_handler})
 }
 
-pub fn run(tier: Tier, _replay: Option<String>) -> i32 {
+struct Job {
+    scn: Scn,
+    cap_override: Option<usize>,
+    bound: usize,
+    label: String,
+    expected_output: Option<Vec<u8>>,
+    must_stop: bool,
+}
+
+pub fn run(tier: Tier, _replay: Option<String>, part: Option<usize>) -> i32 {
     let mut rep = Reporter::new("C17", tier, "model_checking");
     let mut tot = Tot { executions: 0, steps: 0, states: Default::default(), full_queue_seen: false, stop_observed_runs: 0 };
+    let mut jobs: Vec<Job> = Vec::new();
     // ---- 3. conformance first: it is what the rest rests on
     let depth = if tier.is_thorough() { 6 } else { 5 };
-    let (nseq, dis) = conformance::run(depth);
+    let (nseq, dis) = if part.is_none() { conformance::run(depth) } else { (0, None) };
     if let Some(d) = dis {
         rep.machinery_error(format!("shim/real channel conformance failed: {d}"));
     }
@@ -326,7 +336,7 @@ pub fn run(tier: Tier, _replay: Option<String>) -> i32 {
                 continue;
             }
             let scn = Scn { mode, mute: false, max_errors: 0, signal: true, cap: 2, input: input.clone(), scratch: scratch(), toml: false };
-            explore_stop(&mut rep, &mut tot, &scn, Some(cap), bound, &format!("signal, {:?}, queue capacity {cap}, 8 packets in batches of 2", mode), None);
+            jobs.push(Job { scn, cap_override: Some(cap), bound, label: format!("signal, {:?}, queue capacity {cap}, 8 packets in batches of 2", mode), expected_output: None, must_stop: false });
         }
         // (d) writer
         let expected: Vec<u8> = {
@@ -334,7 +344,7 @@ pub fn run(tier: Tier, _replay: Option<String>) -> i32 {
             w.iter().filter(|x| x.rdh.link_id == 0).flat_map(|x| clean3[x.offset as usize..x.payload.1].to_vec()).collect()
         };
         let scn = Scn { mode: Mode::Write(0), mute: false, max_errors: 0, signal: true, cap: 1, input: clean3.clone(), scratch: scratch(), toml: false };
-        explore_stop(&mut rep, &mut tot, &scn, Some(cap), bound, &format!("signal, filtered writing of link 0, queue capacity {cap}"), Some(&expected));
+        jobs.push(Job { scn, cap_override: Some(cap), bound, label: format!("signal, filtered writing of link 0, queue capacity {cap}"), expected_output: Some(expected), must_stop: false });
     }
     // (b) error cap for every N
     // the exact number of errors the stream produces: from an uncapped reference execution's statistics file
@@ -353,7 +363,7 @@ pub fn run(tier: Tier, _replay: Option<String>) -> i32 {
             continue;
         }
         let scn = Scn { mode: Mode::AllIts, mute: false, max_errors: n, signal: false, cap: 2, input: faulty3.clone(), scratch: scratch(), toml: false };
-        explore_stop_x(&mut rep, &mut tot, &scn, Some(1), bound.min(1), &format!("error cap -e {n}, queue capacity 1"), None, true);
+        jobs.push(Job { scn, cap_override: Some(1), bound, label: format!("error cap -e {n}, queue capacity 1"), expected_output: None, must_stop: true });
     }
     // (c) fatal framing error at every packet index
     let npk = stream::walk(&clean3).0.len();
@@ -367,9 +377,31 @@ pub fn run(tier: Tier, _replay: Option<String>) -> i32 {
                 continue;
             }
             let scn = Scn { mode: Mode::AllIts, mute: false, max_errors: 0, signal: false, cap: 2, input: Arc::new(b.clone()), scratch: scratch(), toml: false };
-            explore_stop(&mut rep, &mut tot, &scn, Some(cap), bound.min(1), &format!("fatal framing error at packet {i}, queue capacity {cap}"), None);
+            jobs.push(Job { scn, cap_override: Some(cap), bound, label: format!("fatal framing error at packet {i}, queue capacity {cap}"), expected_output: None, must_stop: false });
         }
     }
+    // the scenarios are explored by worker processes (one controlled execution at a time per process)
+    if let Some(k) = part {
+        let j = &jobs[k];
+        explore_stop_x(&mut rep, &mut tot, &j.scn, j.cap_override, j.bound, &j.label, j.expected_output.as_deref(), j.must_stop);
+        crate::parts::write_part(&rep.export_part(json!({"executions": tot.executions, "steps": tot.steps, "states": tot.states.iter().collect::<Vec<_>>(), "full_queue_seen": tot.full_queue_seen, "stop_observed_runs": tot.stop_observed_runs})));
+        let _ = std::fs::remove_dir_all(scratch());
+        return 0;
+    }
+    for (k, r) in crate::parts::run_parts("C17", tier, jobs.len()).into_iter().enumerate() {
+        match r {
+            Err(e) => rep.machinery_error(format!("{}: {e}", jobs[k].label)),
+            Ok(v) => {
+                let p = rep.import_part(&v);
+                tot.executions += p["executions"].as_u64().unwrap_or(0);
+                tot.steps += p["steps"].as_u64().unwrap_or(0);
+                tot.states.extend(p["states"].as_array().map(|a| a.iter().filter_map(|x| x.as_u64()).collect::<Vec<_>>()).unwrap_or_default());
+                tot.full_queue_seen |= p["full_queue_seen"].as_bool().unwrap_or(false);
+                tot.stop_observed_runs += p["stop_observed_runs"].as_u64().unwrap_or(0);
+            }
+        }
+    }
+    rep.cov("scheduler_scenarios", json!(jobs.len()));
     if !tot.full_queue_seen {
         rep.machinery_error("no execution ever filled a bounded queue (vacuous small world)".into());
     }
